@@ -661,11 +661,9 @@ class NP:
         return _np.column_stack([obj(x) if _has_sym(x) else x for x in xs])
     def unique(self, x, **k):
         if isinstance(x, GVec):
-            from .frames import KeySet
-            return KeySet(x)
+            return x.unique()
         if isinstance(x, RowArr) and x.k == 1:
-            from .frames import KeySet
-            return KeySet(GVec(x.vals[0], x.space, x.present))
+            return GVec(x.vals[0], x.space, x.present).unique()
         if _has_sym(x): raise Unsupported("np.unique on symbolic data")
         return _np.unique(x, **k)
     def isin(self, a, b, **k):
